@@ -127,7 +127,11 @@ template <typename C>
 long code_of(C c)
 {
     if constexpr (sizeof(C) == 1) { return (long)(unsigned char)c; }
-    else { return (long)(unsigned long)(std::make_unsigned_t<C>)c; }
+    else {
+        // garbage read through a broken view / size must still fit the 32-bit integers of the judge
+        unsigned long v = (unsigned long)(std::make_unsigned_t<C>)c;
+        return v > (1ul << 30) ? (long)(1ul << 30) : (long)v;
+    }
 }
 template <typename C>
 C char_of(long v)
@@ -480,7 +484,8 @@ struct Runner {
                 size_t sz = v.size() > 100 ? 100 : v.size();
                 for (size_t j = 0; j < sz; ++j) { out.push_back(code_of<C>(v.data()[j])); }
                 o.ka("out", out);
-                o.kv("off", (long)(v.data() - hb.p));
+                long off = (long)(v.data() - hb.p);
+                o.kv("off", off > (1l << 30) ? (1l << 30) : (off < -(1l << 30) ? -(1l << 30) : off));
             };
             for (long p1 : rec.P1) {
                 for (long c1 : rec.C1) {
